@@ -212,8 +212,8 @@ static void config_case(int be, int k, int m, int hd, int w)
     int fs = liberasurecode_get_fragment_size(desc, 100);
     int al = liberasurecode_get_aligned_data_size(desc, 100);
     (void)mn; (void)fs; (void)al;
-    uint64_t lens[2] = { 100, 0 };
-    for (int li = 0; li < 2; li++) {
+    uint64_t lens[4] = { 100, 0, 1, 37 };
+    for (int li = 0; li < 4; li++) {
         gbuf_t gd; uint8_t *d = gbuf_alloc(&gd, lens[li], GP_END); vh_fill(d, lens[li], PAT_RAMP); gbuf_readonly(&gd);
         char **ed = NULL, **ep = NULL; uint64_t fl = 0;
         int rc = liberasurecode_encode(desc, (char *)d, lens[li], &ed, &ep, &fl);
@@ -257,12 +257,19 @@ static void engine(void)
         vh_group_end();
     }
     int bes[] = { 0, 1, 2, 3, 4, 5, 6, 7, 8, 9, 255, -1 };
-    int ws[] = { 0, 4, 8, 16, 32, 1, 7, -8, 64 };
-    int nw = thorough ? 9 : 5;
-    for (int bi = 0; bi < 12; bi++) for (int k = -1; k <= 33; k++) {
+    int ws[] = { 0, 4, 8, 16, 32, 1, 7, -8, 64, 9, 15, 17, 31, 33, INT_MAX, INT_MIN };
+    int nw = thorough ? 16 : 5;
+    /* k and m: every value in -1..33 | -2..40, plus extreme values (overflow of k+m, of k*m, of sizes derived from them) */
+    static int kv[80], mv[80]; int nk = 0;
+    for (int v = thorough ? -2 : -1; v <= (thorough ? 40 : 33); v++) kv[nk++] = v;
+    { static const int ext[] = { INT_MAX, INT_MIN, INT_MAX - 1, 1 << 16, 1 << 30, -(1 << 30), 65535, 256, 255 }; for (int i = 0; i < (thorough ? 9 : 5); i++) kv[nk++] = ext[i]; }
+    memcpy(mv, kv, sizeof kv);
+    for (int bi = 0; bi < 12; bi++) for (int ki = 0; ki < nk; ki++) {
+        int k = kv[ki];
         if (!vh_group_begin("A/config/backend%d/k%d", bes[bi], k)) continue;
-        for (int m = -1; m <= 33; m++) {
-            if (bes[bi] == EC_BACKEND_FLAT_XOR_HD) { for (int hd = 0; hd <= 7; hd++) for (int wi = 0; wi < (hd == 3 ? nw : 1); wi++) config_case(bes[bi], k, m, hd, ws[wi]); }
+        for (int mi = 0; mi < nk; mi++) {
+            int m = mv[mi];
+            if (bes[bi] == EC_BACKEND_FLAT_XOR_HD) { for (int hd = -1; hd <= 7; hd++) for (int wi = 0; wi < (hd == 3 ? nw : 1); wi++) config_case(bes[bi], k, m, hd, ws[wi]); }
             else for (int h = 0; h < 2; h++) for (int wi = 0; wi < nw; wi++) { if (h && m == 0) continue; config_case(bes[bi], k, m, h ? m : 0, ws[wi]); }
         }
         vh_group_end();
